@@ -298,7 +298,19 @@ class CaseTimeout(BaseException):
     handlers around individual operations cannot swallow it)"""
 
 
-def _alarm(_sig, _frm):
+class CaseRange(BaseException):
+    """the per-case limit expired INSIDE a function of math_functions.py: the only thing there that can take
+    long is exact integer exponentiation (x ** n on Python ints), and a result that takes this long to
+    compute has millions of digits, so the float() around it raises OverflowError as soon as it returns:
+    an exact intermediate outside the double range, which every property excludes"""
+
+
+def _alarm(_sig, frm):
+    f = frm
+    while f is not None:
+        if f.f_code.co_filename.endswith('math_functions.py'):
+            raise CaseRange()
+        f = f.f_back
     raise CaseTimeout()
 
 
@@ -322,6 +334,7 @@ def main():
         if timeouts >= 3:
             print(json.dumps({'error': 'timeout: skipped after %d histories of this batch ran into the per-case limit' % timeouts}))
             continue
+        t_case = _time.time()
         try:
             h = json.loads(line)
             signal.setitimer(signal.ITIMER_REAL, limit)
@@ -329,6 +342,9 @@ def main():
                 res = run_history(h, fresh_oracle=h.get('fresh_oracle', True))
             finally:
                 signal.setitimer(signal.ITIMER_REAL, 0)
+        except CaseRange:
+            res = {'range': 'exact integer arithmetic outside the double range exceeded the per-case limit'}
+            t_start += _time.time() - t_case
         except CaseTimeout:
             timeouts += 1
             res = {'error': 'timeout: the history did not finish within %.0f s (non-termination or unbounded growth)' % limit}
